@@ -111,7 +111,12 @@ func pkgs(root bool) []layout.Pkg {
 		{Dir: "b", Name: "b", Imports: []string{mod + "/b/nested"}, Types: []string{"B1"}, Tags: tags},
 		{Dir: "b/nested", Name: "nested", Types: []string{"N1", "N2", "N3"}, Aliases: []string{"NA"}, Tags: tags},
 		{Dir: "c", Name: "c", Types: []string{"C1"}, Tags: tags},
+		// packages without a single defined type (d: nothing; e: only an alias): every generator renders nothing there
+		// (the alias generator aside), so their stale files must go like everywhere else
+		{Dir: "d", Name: "d", Typeless: true, Tags: tags},
+		{Dir: "e", Name: "e", Typeless: true, Aliases: []string{"EA"}, Tags: tags},
 	}
+	ps[0].ValueImports = []string{mod + "/d", mod + "/e"}
 	if root {
 		ps[0].Imports = append(ps[0].Imports, mod)
 		ps = append(ps, layout.Pkg{Dir: "", Name: "rootpkg", Types: []string{"R1"}, Aliases: []string{"RA"}, Tags: tags})
@@ -239,9 +244,12 @@ func judge(cfg config, ps []layout.Pkg, before, after map[string]fixture.Entry, 
 			f := filepath.Join(p.Dir, cfg.Base+"."+gs.Name+".go")
 			_, existed := before[f]
 			_, exists := after[f]
-			renders := bh.RendersSomething(true, len(p.Aliases) > 0, gs.Alias)
-			ignores := bh.IgnoresWithoutOutput(true, len(p.Aliases) > 0, gs.Alias)
+			renders := bh.RendersSomething(!p.Typeless, len(p.Aliases) > 0, gs.Alias)
+			ignores := bh.IgnoresWithoutOutput(!p.Typeless, len(p.Aliases) > 0, gs.Alias)
 			key := fmt.Sprintf("%s prev=%v alias-gen=%v", bh.Mode, existed, gs.Alias)
+			if p.Typeless {
+				key += fmt.Sprintf(" typeless aliases=%d", len(p.Aliases))
+			}
 			switch {
 			case renders:
 				if !exists {
